@@ -143,95 +143,133 @@ theorem closeBudget_none {maxLen ov s : Nat} (h : maxLen < ov + s) : closeBudget
   unfold closeBudget
   rw [if_pos h]
 
+theorem codeBudget_off (code : Nat) : codeBudget 0 code = some 0 := by simp [codeBudget]
+
+theorem codeBudget_on {code : Nat} (h : code < 2^62) : codeBudget 1 code = some (encB code).length := by
+  simp [codeBudget, size_eq_length h]
+
+/-- bytes `ConnectionClose::encode` reserves besides the reason: type + (2 for the code) + frame type + length -/
+def connFixed (ty : Nat) (reason : Bytes) : Nat := 3 + ((encB ty).length + (encB reason.length).length)
+
+/-- bytes `ApplicationClose::encode` reserves besides the reason: type + error code + length -/
+def appFixed (code : Nat) (reason : Bytes) : Nat := 1 + ((encB code).length + (encB reason.length).length)
+
 /-- number of reason bytes `ConnectionClose::encode` keeps under `max_len` -/
 def connKeep (maxLen : Nat) (ty : Nat) (reason : Bytes) : Nat :=
-  min reason.length (maxLen - 3 - ((encB ty).length + (encB reason.length).length))
+  min reason.length (maxLen - connFixed ty reason)
 
 /-- number of reason bytes `ApplicationClose::encode` keeps under `max_len` -/
-def appKeep (maxLen : Nat) (reason : Bytes) : Nat :=
-  min reason.length (maxLen - 3 - (encB reason.length).length)
+def appKeep (maxLen code : Nat) (reason : Bytes) : Nat :=
+  min reason.length (maxLen - appFixed code reason)
+
+theorem ftRaw_lt (ft : Option Nat) (hft : ∀ x, ft = some x → x < 2^62 ∧ x ≠ 0) : ftRaw ft < 2^62 := by
+  cases ft with
+  | none => simp [ftRaw]
+  | some x => simpa [ftRaw] using (hft x rfl).1
+
+/-- the bytes `ConnectionClose::encode` writes when the budget does not underflow -/
+theorem closeConn_enc (withLen : Bool) (maxLen code : Nat) (ft : Option Nat) (reason : Bytes)
+    (hc : code < 2^62) (hl : reason.length < 2^62) (hty : ftRaw ft < 2^62)
+    (hm : connFixed (ftRaw ft) reason ≤ maxLen) :
+    encodeWith withLen maxLen (.closeConn code ft reason) =
+      some (encB Gen.ftConnectionClose ++ (encB code ++ (encB (ftRaw ft) ++
+        (encB (connKeep maxLen (ftRaw ft) reason) ++ reason.take (connKeep maxLen (ftRaw ft) reason))))) := by
+  have hk : connKeep maxLen (ftRaw ft) reason < 2^62 := by unfold connKeep; omega
+  have hm' : 3 + (0 + ((encB (ftRaw ft)).length + (encB reason.length).length)) ≤ maxLen := by
+    unfold connFixed at hm; omega
+  simp only [encodeWith, Gen.closeConnBudgetsCodeSize, codeBudget_off, sizeOf62_eq hty, sizeOf62_eq hl,
+    Gen.closeConnOverhead]
+  rw [closeBudget_some hm']
+  simp only [wVar_some (show Gen.ftConnectionClose < 2^62 by decide), wVar_some hc, wVar_some hty]
+  have hkeep : min reason.length (maxLen - 3 - (0 + ((encB (ftRaw ft)).length + (encB reason.length).length)))
+      = connKeep maxLen (ftRaw ft) reason := by unfold connKeep connFixed; omega
+  simp only [hkeep, wVar_some hk, wBytes_some, List.nil_append, List.append_assoc]
+
+theorem closeConn_none (withLen : Bool) (maxLen code : Nat) (ft : Option Nat) (reason : Bytes)
+    (hl : reason.length < 2^62) (hty : ftRaw ft < 2^62) (hm : ¬ connFixed (ftRaw ft) reason ≤ maxLen) :
+    encodeWith withLen maxLen (.closeConn code ft reason) = none := by
+  have hm' : maxLen < 3 + (0 + ((encB (ftRaw ft)).length + (encB reason.length).length)) := by
+    unfold connFixed at hm; omega
+  simp only [encodeWith, Gen.closeConnBudgetsCodeSize, codeBudget_off, sizeOf62_eq hty, sizeOf62_eq hl,
+    Gen.closeConnOverhead]
+  rw [closeBudget_none hm']
+
+/-- the bytes `ApplicationClose::encode` writes when the budget does not underflow -/
+theorem closeApp_enc (withLen : Bool) (maxLen code : Nat) (reason : Bytes)
+    (hc : code < 2^62) (hl : reason.length < 2^62) (hm : appFixed code reason ≤ maxLen) :
+    encodeWith withLen maxLen (.closeApp code reason) =
+      some (encB Gen.ftApplicationClose ++ (encB code ++
+        (encB (appKeep maxLen code reason) ++ reason.take (appKeep maxLen code reason)))) := by
+  have hk : appKeep maxLen code reason < 2^62 := by unfold appKeep; omega
+  have hm' : 1 + ((encB code).length + (encB reason.length).length) ≤ maxLen := by
+    unfold appFixed at hm; omega
+  simp only [encodeWith, Gen.closeAppBudgetsCodeSize, codeBudget_on hc, sizeOf62_eq hl, Gen.closeAppOverhead]
+  rw [closeBudget_some hm']
+  simp only [wVar_some (show Gen.ftApplicationClose < 2^62 by decide), wVar_some hc]
+  have hkeep : min reason.length (maxLen - 1 - ((encB code).length + (encB reason.length).length))
+      = appKeep maxLen code reason := by unfold appKeep appFixed; omega
+  simp only [hkeep, wVar_some hk, wBytes_some, List.nil_append, List.append_assoc]
+
+theorem closeApp_none (withLen : Bool) (maxLen code : Nat) (reason : Bytes)
+    (hc : code < 2^62) (hl : reason.length < 2^62) (hm : ¬ appFixed code reason ≤ maxLen) :
+    encodeWith withLen maxLen (.closeApp code reason) = none := by
+  have hm' : maxLen < 1 + ((encB code).length + (encB reason.length).length) := by
+    unfold appFixed at hm; omega
+  simp only [encodeWith, Gen.closeAppBudgetsCodeSize, codeBudget_on hc, sizeOf62_eq hl, Gen.closeAppOverhead]
+  rw [closeBudget_none hm']
 
 theorem closeConn_trunc (withLen : Bool) (maxLen code : Nat) (ft : Option Nat) (reason : Bytes)
     (hc : code < 2^62) (hl : reason.length < 2^62) (hft : ∀ x, ft = some x → x < 2^62 ∧ x ≠ 0)
-    (hm : 3 + ((encB (ftRaw ft)).length + (encB reason.length).length) ≤ maxLen) (r : Bytes) :
+    (hm : connFixed (ftRaw ft) reason ≤ maxLen) (r : Bytes) :
     ∃ e, encodeWith withLen maxLen (.closeConn code ft reason) = some e ∧
       decodeOne (e ++ r) = .ok (.closeConn code ft (reason.take (connKeep maxLen (ftRaw ft) reason)), r) := by
-  have hty : ftRaw ft < 2^62 := by
-    cases ft with
-    | none => simp [ftRaw]
-    | some x => simpa [ftRaw] using (hft x rfl).1
-  have hk : connKeep maxLen (ftRaw ft) reason < 2^62 := by
-    unfold connKeep; omega
+  have hty := ftRaw_lt ft hft
+  have hk : connKeep maxLen (ftRaw ft) reason < 2^62 := by unfold connKeep; omega
   have hkl : (reason.take (connKeep maxLen (ftRaw ft) reason)).length = connKeep maxLen (ftRaw ft) reason := by
     rw [List.length_take]; unfold connKeep; omega
-  refine ⟨?e, ?a, ?b⟩
-  case a =>
-    simp only [encodeWith, sizeOf62_eq hty, sizeOf62_eq hl, Gen.closeConnOverhead]
-    rw [closeBudget_some hm]
-    simp only [wVar_some (show Gen.ftConnectionClose < 2^62 by decide), wVar_some hc, wVar_some hty]
-    show wBytes _ (wVar (connKeep maxLen (ftRaw ft) reason) _) = _
-    rw [wVar_some hk]
-    rfl
-  case b =>
-    have hnone : (if ftRaw ft = 0 then none else some (ftRaw ft)) = ft := by
-      cases ft with
-      | none => simp [ftRaw]
-      | some x => simp [ftRaw, (hft x rfl).2]
-    have hx := takeN_append' E _ _ r hkl
-    simp [decodeOne, decodeBody, takeLen, getVar_enc, hc, hty, hk, hnone]
-    simp only [connKeep] at hx ⊢
-    rw [hx]
+  refine ⟨_, closeConn_enc withLen maxLen code ft reason hc hl hty hm, ?_⟩
+  have hnone : (if ftRaw ft = 0 then none else some (ftRaw ft)) = ft := by
+    cases ft with
+    | none => simp [ftRaw]
+    | some x => simp [ftRaw, (hft x rfl).2]
+  have hx := takeN_append' E _ _ r hkl
+  simp [decodeOne, decodeBody, takeLen, getVar_enc, hc, hty, hk, hnone, hx]
 
 theorem closeApp_trunc (withLen : Bool) (maxLen code : Nat) (reason : Bytes)
-    (hc : code < 2^62) (hl : reason.length < 2^62)
-    (hm : 3 + (encB reason.length).length ≤ maxLen) (r : Bytes) :
+    (hc : code < 2^62) (hl : reason.length < 2^62) (hm : appFixed code reason ≤ maxLen) (r : Bytes) :
     ∃ e, encodeWith withLen maxLen (.closeApp code reason) = some e ∧
-      decodeOne (e ++ r) = .ok (.closeApp code (reason.take (appKeep maxLen reason)), r) := by
-  have hk : appKeep maxLen reason < 2^62 := by
-    unfold appKeep; omega
-  have hkl : (reason.take (appKeep maxLen reason)).length = appKeep maxLen reason := by
+      decodeOne (e ++ r) = .ok (.closeApp code (reason.take (appKeep maxLen code reason)), r) := by
+  have hk : appKeep maxLen code reason < 2^62 := by unfold appKeep; omega
+  have hkl : (reason.take (appKeep maxLen code reason)).length = appKeep maxLen code reason := by
     rw [List.length_take]; unfold appKeep; omega
-  refine ⟨?e, ?a, ?b⟩
-  case a =>
-    simp only [encodeWith, sizeOf62_eq hl, Gen.closeAppOverhead]
-    rw [closeBudget_some hm]
-    simp only [wVar_some (show Gen.ftApplicationClose < 2^62 by decide), wVar_some hc]
-    show wBytes _ (wVar (appKeep maxLen reason) _) = _
-    rw [wVar_some hk]
-    rfl
-  case b =>
-    have hx := takeN_append' E _ _ r hkl
-    simp [decodeOne, decodeBody, takeLen, getVar_enc, hc, hk]
-    simp only [appKeep] at hx ⊢
-    rw [hx]
+  refine ⟨_, closeApp_enc withLen maxLen code reason hc hl hm, ?_⟩
+  have hx := takeN_append' E _ _ r hkl
+  simp [decodeOne, decodeBody, takeLen, getVar_enc, hc, hk, hx]
 
 theorem rt_closeConn (code : Nat) (ft : Option Nat) (reason : Bytes)
     (hc : code < 2^62) (hl : reason.length < 2^62) (hft : ∀ x, ft = some x → x < 2^62 ∧ x ≠ 0) :
     RT (.closeConn code ft reason) := by
   intro r
-  have hty : ftRaw ft < 2^62 := by
-    cases ft with
-    | none => simp [ftRaw]
-    | some x => simpa [ftRaw] using (hft x rfl).1
+  have hty := ftRaw_lt ft hft
   have l1 := (encB_length hty).2
   have l2 := (encB_length hl).2
-  have hm : 3 + ((encB (ftRaw ft)).length + (encB reason.length).length) ≤ usizeMax := by
-    unfold usizeMax; omega
+  have hm : connFixed (ftRaw ft) reason ≤ usizeMax := by unfold connFixed usizeMax; omega
   obtain ⟨e, he, hd⟩ := closeConn_trunc true usizeMax code ft reason hc hl hft hm r
   refine ⟨e, he, ?_⟩
   have : connKeep usizeMax (ftRaw ft) reason = reason.length := by
-    unfold connKeep usizeMax; omega
+    unfold connKeep connFixed usizeMax; omega
   rw [hd, this, List.take_length]
 
 theorem rt_closeApp (code : Nat) (reason : Bytes) (hc : code < 2^62) (hl : reason.length < 2^62) :
     RT (.closeApp code reason) := by
   intro r
+  have l1 := (encB_length hc).2
   have l2 := (encB_length hl).2
-  have hm : 3 + (encB reason.length).length ≤ usizeMax := by unfold usizeMax; omega
+  have hm : appFixed code reason ≤ usizeMax := by unfold appFixed usizeMax; omega
   obtain ⟨e, he, hd⟩ := closeApp_trunc true usizeMax code reason hc hl hm r
   refine ⟨e, he, ?_⟩
-  have : appKeep usizeMax reason = reason.length := by
-    unfold appKeep usizeMax; omega
+  have : appKeep usizeMax code reason = reason.length := by
+    unfold appKeep appFixed usizeMax; omega
   rw [hd, this, List.take_length]
 
 /-! ### ACK -/
@@ -620,51 +658,63 @@ theorem size_stream (wl : Bool) (m id off : Nat) (fin : Bool) (d e : Bytes) (h1 
     simp [encodeWith, streamTy, wVar_some, *] at he <;> subst he <;>
     simp [List.length_append] <;> omega
 
+theorem closeConn_length (wl : Bool) (m code : Nat) (ft : Option Nat) (reason e : Bytes)
+    (hc : code < 2^62) (hl : reason.length < 2^62) (hty : ftRaw ft < 2^62)
+    (he : encodeWith wl m (.closeConn code ft reason) = some e) :
+    connFixed (ftRaw ft) reason ≤ m ∧
+    e.length = 1 + (encB code).length + (encB (ftRaw ft)).length +
+      (encB (connKeep m (ftRaw ft) reason)).length + connKeep m (ftRaw ft) reason := by
+  by_cases hm : connFixed (ftRaw ft) reason ≤ m
+  · refine ⟨hm, ?_⟩
+    rw [closeConn_enc wl m code ft reason hc hl hty hm] at he
+    simp only [Option.some.injEq] at he
+    subst he
+    have := encB_len_one (show Gen.ftConnectionClose < 64 by decide)
+    have hkl : (reason.take (connKeep m (ftRaw ft) reason)).length = connKeep m (ftRaw ft) reason := by
+      rw [List.length_take]; unfold connKeep; omega
+    simp only [List.length_append, hkl]
+    omega
+  · rw [closeConn_none wl m code ft reason hl hty hm] at he
+    simp at he
+
+theorem closeApp_length (wl : Bool) (m code : Nat) (reason e : Bytes)
+    (hc : code < 2^62) (hl : reason.length < 2^62)
+    (he : encodeWith wl m (.closeApp code reason) = some e) :
+    appFixed code reason ≤ m ∧
+    e.length = 1 + (encB code).length + (encB (appKeep m code reason)).length + appKeep m code reason := by
+  by_cases hm : appFixed code reason ≤ m
+  · refine ⟨hm, ?_⟩
+    rw [closeApp_enc wl m code reason hc hl hm] at he
+    simp only [Option.some.injEq] at he
+    subst he
+    have := encB_len_one (show Gen.ftApplicationClose < 64 by decide)
+    have hkl : (reason.take (appKeep m code reason)).length = appKeep m code reason := by
+      rw [List.length_take]; unfold appKeep; omega
+    simp only [List.length_append, hkl]
+    omega
+  · rw [closeApp_none wl m code reason hc hl hm] at he
+    simp at he
+
 theorem size_closeConn (wl : Bool) (m code : Nat) (ft : Option Nat) (reason e : Bytes)
     (hc : code < 2^62) (hl : reason.length < 2^62) (hft : ∀ x, ft = some x → x < 2^62 ∧ x ≠ 0)
     (he : encodeWith wl m (.closeConn code ft reason) = some e) :
     e.length ≤ Gen.sizeBoundConnectionClose + reason.length := by
-  have hty : ftRaw ft < 2^62 := by
-    cases ft with
-    | none => simp [ftRaw]
-    | some x => simpa [ftRaw] using (hft x rfl).1
-  by_cases hm : 3 + ((encB (ftRaw ft)).length + (encB reason.length).length) ≤ m
-  · have hk : connKeep m (ftRaw ft) reason < 2^62 := by unfold connKeep; omega
-    have hk2 : connKeep m (ftRaw ft) reason ≤ reason.length := by unfold connKeep; omega
-    simp only [encodeWith, sizeOf62_eq hty, sizeOf62_eq hl, Gen.closeConnOverhead] at he
-    rw [closeBudget_some hm] at he
-    simp only [wVar_some (show Gen.ftConnectionClose < 2^62 by decide), wVar_some hc, wVar_some hty] at he
-    change wBytes _ (wVar (connKeep m (ftRaw ft) reason) _) = _ at he
-    rw [wVar_some hk] at he
-    simp only [wBytes_some, Option.some.injEq] at he
-    subst he
-    have := (encB_length hc).2; have := (encB_length hty).2; have := (encB_length hk).2
-    have := encB_len_one (show 28 < 64 by decide)
-    simp [List.length_append]; omega
-  · simp only [encodeWith, sizeOf62_eq hty, sizeOf62_eq hl, Gen.closeConnOverhead] at he
-    rw [closeBudget_none (by omega)] at he
-    simp at he
+  have hty := ftRaw_lt ft hft
+  obtain ⟨_, hlen⟩ := closeConn_length wl m code ft reason e hc hl hty he
+  have hk2 : connKeep m (ftRaw ft) reason ≤ reason.length := by unfold connKeep; omega
+  have hk : connKeep m (ftRaw ft) reason < 2^62 := by omega
+  have := (encB_length hc).2; have := (encB_length hty).2; have := (encB_length hk).2
+  simp only [Gen.sizeBoundConnectionClose]; omega
 
 theorem size_closeApp (wl : Bool) (m code : Nat) (reason e : Bytes)
     (hc : code < 2^62) (hl : reason.length < 2^62)
     (he : encodeWith wl m (.closeApp code reason) = some e) :
     e.length ≤ Gen.sizeBoundApplicationClose + reason.length := by
-  by_cases hm : 3 + (encB reason.length).length ≤ m
-  · have hk : appKeep m reason < 2^62 := by unfold appKeep; omega
-    have hk2 : appKeep m reason ≤ reason.length := by unfold appKeep; omega
-    simp only [encodeWith, sizeOf62_eq hl, Gen.closeAppOverhead] at he
-    rw [closeBudget_some hm] at he
-    simp only [wVar_some (show Gen.ftApplicationClose < 2^62 by decide), wVar_some hc] at he
-    change wBytes _ (wVar (appKeep m reason) _) = _ at he
-    rw [wVar_some hk] at he
-    simp only [wBytes_some, Option.some.injEq] at he
-    subst he
-    have := (encB_length hc).2; have := (encB_length hk).2
-    have := encB_len_one (show 29 < 64 by decide)
-    simp [List.length_append]; omega
-  · simp only [encodeWith, sizeOf62_eq hl, Gen.closeAppOverhead] at he
-    rw [closeBudget_none (by omega)] at he
-    simp at he
+  obtain ⟨_, hlen⟩ := closeApp_length wl m code reason e hc hl he
+  have hk2 : appKeep m code reason ≤ reason.length := by unfold appKeep; omega
+  have hk : appKeep m code reason < 2^62 := by omega
+  have := (encB_length hc).2; have := (encB_length hk).2
+  simp only [Gen.sizeBoundApplicationClose]; omega
 
 theorem encoded_size_le_bound (f : Frame) (wl : Bool) (m : Nat) (e : Bytes) (b : Nat) (hw : wellFormed f)
     (he : encodeWith wl m f = some e) (hb : sizeBound f = some b) : e.length ≤ b + payloadLen f := by
@@ -680,38 +730,47 @@ theorem encoded_size_le_bound (f : Frame) (wl : Bool) (m : Nat) (e : Bytes) (b :
   case closeApp => exact size_closeApp _ _ _ _ _ hw.1 hw.2 he
   case datagram => exact size_datagram _ _ _ _ hw he
 
-/-- what a truncating close occupies, exactly -/
-theorem closeApp_length (wl : Bool) (m code : Nat) (reason e : Bytes)
-    (hc : code < 2^62) (hl : reason.length < 2^62) (hm : 3 + (encB reason.length).length ≤ m)
-    (he : encodeWith wl m (.closeApp code reason) = some e) :
-    e.length = 1 + (encB code).length + (encB (appKeep m reason)).length + appKeep m reason := by
-  have hk : appKeep m reason < 2^62 := by unfold appKeep; omega
-  have hk2 : appKeep m reason ≤ reason.length := by unfold appKeep; omega
-  simp only [encodeWith, sizeOf62_eq hl, Gen.closeAppOverhead] at he
-  rw [closeBudget_some hm] at he
-  simp only [wVar_some (show Gen.ftApplicationClose < 2^62 by decide), wVar_some hc] at he
-  change wBytes _ (wVar (appKeep m reason) _) = _ at he
-  rw [wVar_some hk] at he
-  simp only [wBytes_some, Option.some.injEq] at he
-  subst he
-  have := encB_len_one (show 29 < 64 by decide)
-  simp only [List.length_append, List.length_take, List.length_nil, Gen.ftApplicationClose, appKeep] at *
+/-- APPLICATION_CLOSE written under `max_len` occupies at most `max_len` bytes (the budget accounts for
+    the real size of the error code) -/
+theorem closeApp_fits (wl : Bool) (m code : Nat) (reason e : Bytes)
+    (hc : code < 2^62) (hl : reason.length < 2^62)
+    (he : encodeWith wl m (.closeApp code reason) = some e) : e.length ≤ m := by
+  obtain ⟨hm, hlen⟩ := closeApp_length wl m code reason e hc hl he
+  have hk2 : appKeep m code reason ≤ reason.length := by unfold appKeep; omega
+  have hk3 : appKeep m code reason ≤ m - appFixed code reason := by unfold appKeep; omega
+  have := encB_length_mono hl hk2
+  unfold appFixed at hm hk3
   omega
 
-/-- the `3` of `ApplicationClose::encode` budgets 2 bytes for the error code: the encoding fits
-    `max_len` when the code needs at most 2 bytes … -/
-theorem closeApp_fits (wl : Bool) (m code : Nat) (reason e : Bytes)
-    (hc : code < 2^14) (hl : reason.length < 2^62) (hm : 3 + (encB reason.length).length ≤ m)
-    (he : encodeWith wl m (.closeApp code reason) = some e) : e.length ≤ m := by
+/-- CONNECTION_CLOSE written under `max_len` occupies at most `max_len` bytes when the transport error code
+    needs at most two bytes (the constant 3 of the budget = frame type + 2) -/
+theorem closeConn_fits (wl : Bool) (m code : Nat) (ft : Option Nat) (reason e : Bytes)
+    (hc : code < 2^14) (hl : reason.length < 2^62) (hft : ∀ x, ft = some x → x < 2^62 ∧ x ≠ 0)
+    (he : encodeWith wl m (.closeConn code ft reason) = some e) : e.length ≤ m := by
   have hc' : code < 2^62 := by omega
-  rw [closeApp_length wl m code reason e hc' hl hm he]
-  have hk2 : appKeep m reason ≤ reason.length := by unfold appKeep; omega
-  have hk3 : appKeep m reason ≤ m - 3 - (encB reason.length).length := by unfold appKeep; omega
+  have hty := ftRaw_lt ft hft
+  obtain ⟨hm, hlen⟩ := closeConn_length wl m code ft reason e hc' hl hty he
+  have hk2 : connKeep m (ftRaw ft) reason ≤ reason.length := by unfold connKeep; omega
+  have hk3 : connKeep m (ftRaw ft) reason ≤ m - connFixed (ftRaw ft) reason := by unfold connKeep; omega
   have := encB_length_mono hl hk2
   have : (encB code).length ≤ 2 := by
     rw [encB_length_eq hc']
     repeat' split
     all_goals omega
+  unfold connFixed at hm hk3
   omega
+
+/-- the caller's check `buf.len() + SIZE_BOUND < max_size` guarantees the budget cannot underflow -/
+theorem closeApp_no_underflow (m code : Nat) (reason : Bytes) (hc : code < 2^62) (hl : reason.length < 2^62)
+    (hm : Gen.sizeBoundApplicationClose ≤ m) : appFixed code reason ≤ m := by
+  have := (encB_length hc).2; have := (encB_length hl).2
+  simp only [Gen.sizeBoundApplicationClose] at hm
+  unfold appFixed; omega
+
+theorem closeConn_no_underflow (m ty : Nat) (reason : Bytes) (hty : ty < 2^62) (hl : reason.length < 2^62)
+    (hm : Gen.sizeBoundConnectionClose ≤ m) : connFixed ty reason ≤ m := by
+  have := (encB_length hty).2; have := (encB_length hl).2
+  simp only [Gen.sizeBoundConnectionClose] at hm
+  unfold connFixed; omega
 
 end QM.Wire.Frame
